@@ -400,9 +400,25 @@ EULER_GATES = {"QuadraticPhase", "Squeezing2", "GaussianTransform"}
 MATRIX_GATES = {"Displacement", "PositionDisplacement", "MomentumDisplacement", "Squeezing",
                 "CubicPhase"}
 
-# Confirmed findings: the trigger region is skipped (and counted) by the search parts and
-# checked by the part `findings` under one bucket per root cause.
+# Confirmed findings: the trigger region of an OPEN finding is skipped (and counted) by the
+# search parts and checked by the part `findings` under one bucket per root cause.  Fixed
+# findings stay in `findings` as regression probes (they must pass) and are searched again.
+SQ2_BUCKET = "C09:PF:tf:squeezing2:degenerate-takagi:truncation-dependent"
+G_PROBE = {"sim": "G", "conn": "jax", "mode": "eager", "d": 2, "cutoff": 3, "dtype": "f64",
+           "hbar": 2.0, "prep": {"kind": "vacuum"},
+           "gates": [{"g": "Squeezing", "modes": [1], "p": {"r": 0.3, "phi": 0.4}},
+                     {"g": "Beamsplitter", "modes": [1, 0], "p": {"theta": 0.3, "phi": 0.9}}]}
+# regression probes that keep the bucket of the search part (fixed findings)
+PASSTHROUGH = {"regress:G:jax:fidelity+wigner_function"}
 REGIONS = {
+    "regress:G:jax:fidelity+wigner_function": [G_PROBE],
+    SQ2_BUCKET: [
+        # both Euler decompositions are valid; takagi's U is not unique for the repeated
+        # singular value of Squeezing2 and the truncated gate sequence depends on the choice
+        {"sim": "PF", "conn": "tf", "mode": "eager", "d": 3, "cutoff": 4, "dtype": "f64",
+         "prep": {"kind": "number", "occ": [1, 0, 1]},
+         "gates": [{"g": "Squeezing2", "modes": [2, 0], "p": {"r": 0.4, "phi": 2.0}}]},
+    ],
     "C09:PF:tf:euler-gates:polar-conjugated": [
         {"sim": "PF", "conn": "tf", "mode": "eager", "d": 1, "cutoff": 3, "dtype": "f64",
          "prep": {"kind": "vacuum"},
@@ -438,10 +454,13 @@ def region_of(case):
     if case["conn"] == "tf":
         if case.get("cutoff") == 1 and names & (EULER_GATES | {"Squeezing"}):
             return "C09:PF:tf:cutoff1:squeezing:tf.range"
-        if names & EULER_GATES:
-            return "C09:PF:tf:euler-gates:polar-conjugated"
+        gates = [g["g"] for g in case["gates"]]
+        if "Squeezing2" in gates and (case["prep"]["kind"] != "vacuum"
+                                      or gates.index("Squeezing2") > 0
+                                      or gates.count("Squeezing2") > 1):
+            return SQ2_BUCKET
         if (case["mode"] in ("decorated", "function") and case.get("dtype") == "f32"
-                and names & MATRIX_GATES):
+                and names & (MATRIX_GATES | EULER_GATES)):
             return "C09:PF:tf:graph-modes:float32:active-gate-matrix:raises"
     return None
 
@@ -454,6 +473,8 @@ def prop_region(case, ctx):
     try:
         prop_program(case, ctx)
     except Violation as v:
+        if case["_region"] in PASSTHROUGH:
+            raise
         raise Violation(case["_region"], f"[{v.bucket}] {v.message}")
 
 
@@ -521,8 +542,6 @@ def prop_program(case, ctx):
 def _gate_names(sim, conn, mode):
     names = list(BOSON_GATES[sim]) if sim in BOSON_GATES else list(FERMI_GATES[sim])
     names = [n for n in names if (sim, conn, n) not in EXCLUDED]
-    if conn == "tf":  # region of a confirmed finding, checked by the part `findings`
-        names = [n for n in names if n not in EULER_GATES]
     if mode in ("function", "jit"):
         names = [n for n in names if n in TRACEABLE[(sim, conn, mode)]]
     return names
@@ -596,7 +615,8 @@ def program_case(draw, conn, mode, sims):
         cutoff = draw(st.integers(1, 4 if heavy else (5 if conn == "jax" else 6)))
         prep = draw(progs.prep(d, min(cutoff - 1, 3)))
         gates = draw(st.lists(progs.gate(d, names, scale=0.6), min_size=1, max_size=maxg))
-        if conn == "tf" and cutoff == 1 and any(g["g"] == "Squeezing" for g in gates):
+        if conn == "tf" and cutoff == 1 and any(
+                g["g"] in EULER_GATES | {"Squeezing"} for g in gates):
             cutoff = 2  # region of a confirmed finding (tf.range), see REGIONS
         case.update(d=d, cutoff=cutoff, prep=prep, gates=gates,
                     hbar=draw(st.sampled_from([2.0, 2.0, 1.0, 3.7])))
@@ -627,7 +647,7 @@ def program_case(draw, conn, mode, sims):
     case["dtype"] = draw(st.sampled_from(["f64", "f64", "f64", "f32"])) \
         if sim in ("PF", "G", "P") else "f64"
     if (conn == "tf" and compiled and case["dtype"] == "f32"
-            and any(g["g"] in MATRIX_GATES for g in case["gates"])):
+            and any(g["g"] in MATRIX_GATES | EULER_GATES for g in case["gates"])):
         case["dtype"] = "f64"  # region of a confirmed finding, see REGIONS
     if heavy and case["dtype"] == "f64":
         case["trace_arrays"] = draw(st.booleans())
